@@ -240,9 +240,11 @@ class World(object):
 
     # -- deliveries
     def delivered(self, uid, subcls, msg):
-        if self.agc:
-            gc.collect()
         self.ev('enter', uid, subcls, msg.mid)
+        if self.agc:
+            # after the enter event: the hub has already chosen the recipients of this message, so a death
+            # caused by this collection belongs inside the dispatch window in the recorded history
+            gc.collect()
         self.hdepth += 1
         try:
             if self.hdepth <= MAX_HANDLER_DEPTH and len(self.trace) < MAX_EVENTS and subcls is not None:
